@@ -51,6 +51,11 @@ def family(fam, n, tok, seed):
         A, Q = K.hermitian(seed, n, lam, True, "c13n")
         A = (Q * lam[None, :]) @ Q.conj().T
         return A, Q, lam
+    if fam == "scaled":  # one direction 1000 times larger than the rest (cond ~ 1e3): genuine Hessenberg columns differ in size by 1e3
+        g = P.rng(seed, "c13scaled", n, c)
+        d = np.concatenate([[1000.0], 1.0 + np.arange(n - 1)])
+        M = np.diag(d) + 0.1 * (g.standard_normal((n, n)) + (1j * g.standard_normal((n, n)) if c else 0))
+        return M.astype(np.complex128 if c else np.float64), None, None
     if fam == "nonnormal":
         lam = np.linspace(1, 10, n) * np.where(np.arange(n) % 3 == 2, -1, 1)
         if c:
@@ -193,10 +198,24 @@ def run_case(case, seed):
                 bn = float(np.linalg.norm(B[:, j]))
                 slack = max(1e-9, 100 * tol) * r0n + 1e-10 * bn
                 opt = min_residual(M, R0[:, j], m, exact)
+                if tol > 1e-6:
+                    # a large tolerance legitimately stops Arnoldi early (its test is relative to the size of H, not to r0), so the iterate is the
+                    # minimiser over a shorter space: only the tolerance-free facts are judged (finite, never worse than x0, monotone in m)
+                    if not np.isfinite(res[j]):
+                        bad("nonfinite", m, {"column": j})
+                    elif res[j] > r0n * (1 + 1e-8) + 1e-10 * bn:
+                        bad("residual-exceeds-that-of-x0", m, {"column": j, "residual": float(res[j]), "r0": r0n})
+                    elif prev is not None and res[j] > prev[j] * (1 + 1e-6) + 1e-9 * r0n:
+                        bad("not-monotone-in-m", m, {"column": j, "residual": float(res[j]), "previous": float(prev[j])})
+                    cur.append(res[j])
+                    continue
                 if not np.isfinite(res[j]) or res[j] > (1 + 1e-6) * opt + slack:
                     bad("not-minimal", m, {"column": j, "residual": float(res[j]), "krylov_optimum": opt, "r0": r0n, "x": short(Xm[:, j])})
                 if res[j] > r0n * (1 + 1e-9) + slack:
                     bad("worse-than-x0", m, {"column": j, "residual": float(res[j]), "r0": r0n})
+                if res[j] > r0n * (1 + 1e-8) + 1e-10 * bn:
+                    # x0 itself lies in x0 + K_m: whatever the tolerance stops Arnoldi at, the minimiser cannot be worse (no tol-dependent slack)
+                    bad("residual-exceeds-that-of-x0", m, {"column": j, "residual": float(res[j]), "r0": r0n})
                 if prev is not None and res[j] > prev[j] * (1 + 1e-6) + slack:
                     bad("not-monotone-in-m", m, {"column": j, "residual": float(res[j]), "previous": float(prev[j])})
                 full = m >= n or (deg is not None and m >= deg and x0 is None)
@@ -232,6 +251,17 @@ def cases(tier, seed):
                         for entry in ("gmres", "inv"):
                             out.append(["int", n, tok, bk, x0k, tol, entry, ms])
     fams = [("normal", "c16"), ("nonnormal", "f8"), ("nonnormal", "c16"), ("nonnormal@tiny", "f8"), ("normal@huge", "c16")]
+    for tok in ("f8", "c16"):  # large tolerances and badly scaled operators: the stopping tolerance must not corrupt the least-squares step
+        for fam in ("scaled", "nonnormal"):
+            for n in (5, 8):
+                for bk in ("rand1", "rand3"):
+                    for x0k in ("none", "rand"):
+                        for tol in (1e-4, 1e-3, 1e-2, 9e-2, 0.5):
+                            out.append([fam, n, tok, bk, x0k, tol, "gmres", list(range(1, n + 3))])
+        for n in (5, 8):
+            for tol in (1e-12, 1e-6):
+                for entry in ("gmres", "inv"):
+                    out.append(["scaled", n, tok, "rand3", "none", tol, entry, list(range(1, n + 3))])
     for fam, tok in fams:
         for n in ([3, 5] + big):
             ms = list(range(1, n + 4)) if n <= 8 else sorted({1, 2, 5, 10, 25, n, n + 5})
@@ -259,7 +289,7 @@ def describe(tier, seed):
         "bound": "operators: integer nonsingular n=1..6 (real: exact rational optimum; complex), complex normal, real / complex "
                  "non-normal with prescribed eigenvectors (also at scale 2^-45 and 2^40), n in " + str(_DESC.get("sizes")) + "; right-hand sides: 1 column, 3 columns "
                  "(norms 1e-3, 1, 1e3), e1, eigenvector, minimal-polynomial degree 2 and 3, a zero column among non-zero ones, a heterogeneous batch (eigenvector + generic), float32 / complex64 columns on a double-precision operator, an integer vector; x0 in {none, random}; every m in 1..n+3 "
-                 "(n<=8) / {1,2,5,10,25,n,n+5}; tol in {1e-12, 1e-6}; entry points gmres() and inv(A, GMRES()) @ b; "
+                 "(n<=8) / {1,2,5,10,25,n,n+5}; tol in {1e-12, 1e-6}; a badly scaled family (one direction 1000 x the rest) and tolerances 1e-4 ... 0.5 (the residual may never exceed that of x0); entry points gmres() and inv(A, GMRES()) @ b; "
                  "the switches use_triangular / use_householder of gmres() on one right-hand side, n in {3, 5, 8}, real and complex, every m in 1..n+2",
         "alphabet": _DESC,
         "oracle": "per column: residual <= (1+1e-6) * Krylov optimum + slack; <= initial residual; non-increasing in m; ~0 at m >= n or "
